@@ -161,9 +161,33 @@ func (p *Polarity) compute(v ssa.Value) PolMap {
 	case *ssa.UnOp:
 		if x.Op == token.MUL {
 			if a, ok := x.X.(*ssa.Alloc); ok {
+				// only the stores that can be the reaching definition of this load (a store that
+				// executes strictly after the load is not)
 				r := PolMap{}
 				for _, ref := range *a.Referrers() {
-					if st, ok := ref.(*ssa.Store); ok && st.Addr == a {
+					st, ok := ref.(*ssa.Store)
+					if !ok || st.Addr != a {
+						continue
+					}
+					sb, lb := st.Block(), x.Block()
+					reaches := false
+					if sb == lb {
+						for _, in := range sb.Instrs {
+							if in == ssa.Instruction(st) {
+								reaches = true
+								break
+							}
+							if in == ssa.Instruction(x) {
+								break
+							}
+						}
+						if !reaches && ForwardReachBlocks(sb)[lb] {
+							reaches = true // around a loop
+						}
+					} else {
+						reaches = ForwardReachBlocks(sb)[lb]
+					}
+					if reaches {
 						r = r.join(p.Of(st.Val))
 					}
 				}
